@@ -211,11 +211,33 @@ _STRINGS = ['a', 'Ab c', ' lead', 'trail ', 'x\ty', 'tab\tand  spaces', 'ä€',
 _TOKENS = ['h1', 'handle_2', 'x.y-z', 'ä', 'T0']
 
 
+_XSD_REQ = None
+
+
+def xsd_requirements(tab: Table):
+    """class index -> {xml name: minOccurs (elements) / 1 (required attributes)} from the bundled schemas"""
+    global _XSD_REQ
+    if _XSD_REQ is None:
+        import xsdtable
+        X = xsdtable.XsdTable()
+        bind, _ = xsd_bind(tab, X)
+        _XSD_REQ = {}
+        for ci, tname in bind.items():
+            elems, attrs, _, _ = X.flatten(tname)
+            req = {e[0]: e[2] for e in elems if e[2] >= 1}
+            req.update({a[0]: 1 for a in attrs if a[2]})
+            _XSD_REQ[ci] = req
+    return _XSD_REQ
+
+
 class Gen:
-    def __init__(self, tab: Table, rng, max_depth=3):
+    def __init__(self, tab: Table, rng, max_depth=3, full=False, prefer=()):
+        self.prefer = tuple(prefer)   # classes to choose whenever a member can hold them (directed search)
         self.t = tab
         self.rng = rng
         self.max_depth = max_depth
+        self.full = full          # every optional member present, every list non-empty (documents that exercise the order)
+        self.req = xsd_requirements(tab)
         self.stats = {'present': 0, 'absent_optional': 0, 'xsi': 0, 'lists': 0}
 
     def string(self):
@@ -299,6 +321,10 @@ class Gen:
         """classes that may stand for value class vc in this property (xsi:type substitution)"""
         e_dispatch = self.t._dispatch(p)
         res = [vc] if vc in self.t.index else []
+        if self.prefer and any(issubclass(c, vc) for c in self.prefer):
+            pref = [c for c in self.prefer if issubclass(c, vc) and c in self.t.index]
+            if pref:
+                return pref
         if e_dispatch:
             base_nt = getattr(vc, 'NODETYPE', None)
             for reg, q, ci in self.t.types:
@@ -320,8 +346,12 @@ class Gen:
             if name == 'Dialect' and cls.__name__.endswith('MetadataSection'):
                 continue    # the dialect identifies the section class (Metadata.from_node dispatches on it)
             want = True
+            need = self.req.get(ci, {}).get(e.get('xml'), 0)     # required by the XSD (schema value space)
             if optional:
-                want = r.random() < (0.6 if depth < self.max_depth else 0.25)
+                want = need > 0 or r.random() < (0.6 if depth < self.max_depth else 0.25)
+            if self.full and depth < self.max_depth and kind != 'raw':
+                want = True
+                need = max(need, 1)
             v = None
             fz = self.falsy(p) if kind in ('attr', 'text') else None
             if fz is not None and r.random() < 0.5:
@@ -353,14 +383,14 @@ class Gen:
             elif kind == 'sub':
                 if want or not optional:
                     cands = self.substitutes(p.value_class, p)
-                    if cands and (depth < self.max_depth or not optional):
+                    if cands and (depth < self.max_depth or not optional or need > 0):
                         sub = r.choice(cands) if r.random() < 0.35 else cands[0]
                         if sub is not cands[0]:
                             self.stats['xsi'] += 1
                         v = self.instance(sub, depth + 1)
             elif kind == 'subList':
                 v = []
-                if want and depth < self.max_depth:
+                if (want and depth < self.max_depth) or need > 0:
                     cands = self.substitutes(p.value_class, p)
                     if self.t.keys[ci] == 'mex_types.Metadata':
                         from sdc11073.xml_types import mex_types
@@ -368,14 +398,14 @@ class Gen:
                                  mex_types.RelationshipMetadataSection, mex_types.LocationMetadataSection]
                         cands = [r.choice(cands)]
                     if cands:
-                        for _ in range(r.choice([0, 1, 1, 2, 3])):
+                        for _ in range(max(need, r.choice([0, 1, 1, 2, 3]) if depth < self.max_depth else need)):
                             sub = r.choice(cands) if r.random() < 0.35 else cands[0]
                             if sub is not cands[0]:
                                 self.stats['xsi'] += 1
                             v.append(self.instance(sub, depth + 1))
                         self.stats['lists'] += 1
             elif kind == 'subTextList':
-                v = [self.scalar(p._converter, True) for _ in range(r.randint(0, 3))] if want else []
+                v = [self.scalar(p._converter, True) for _ in range(max(need, r.randint(0, 3)))] if want else []
             elif kind == 'textList':
                 v = ([self.qname() for _ in range(r.randint(0, 3))] if e['conv'] == 'QName'
                      else [self.token() for _ in range(r.randint(0, 3))]) if (want or not optional) else []
@@ -750,6 +780,121 @@ def schema_lines(enc: Enc, tab: Table) -> list:
     return lines
 
 
+# ------------------------------------------------------------------------------------------------ the bundled XSD as reference
+_XSD_BIND = {}
+
+
+def xsd_bind(tab: Table, X):
+    """class index -> XSD type name: by NODETYPE (type name or global element), else propagated from the members that use
+    the class (anonymous inline types, classes without NODETYPE)"""
+    bind = {}
+    for ci, ce in enumerate(tab.entries):
+        nt = ce['nodetype']
+        if nt is None:
+            continue
+        if nt in X.types:
+            bind[ci] = nt
+        elif nt in X.global_elems:
+            bind[ci] = X.global_elems[nt]
+    direct = set(bind)
+    changed = True
+    while changed:
+        changed = False
+        for ci in list(bind):
+            elems = {e[0]: X.resolve(e[1]) for e in X.flatten(bind[ci])[0]}
+            for e in tab.entries[ci]['props']:
+                if e['kind'] in ('sub', 'subList') and e['cls'] >= 0 and e['cls'] not in bind and e.get('xml') in elems \
+                        and elems[e['xml']] in X.types and not X.types[elems[e['xml']]].simple:
+                    bind[e['cls']] = elems[e['xml']]
+                    changed = True
+    _XSD_BIND.clear()
+    _XSD_BIND.update({tab.keys[ci]: bind.get(ci) for ci in range(len(tab.keys))})
+    return bind, direct
+
+
+def lexical_of_default(p, e):
+    """lexical form of the member's implied (or default) value"""
+    v = p._implied_py_value if p._implied_py_value is not None else p._default_py_value
+    if v is None:
+        return None
+    try:
+        if e['kind'] == 'attr':
+            return clark(v) if e['conv'] == 'QName' else p._converter.to_xml(v)
+        if e['kind'] == 'text' and e['style'] == 'plain':
+            return p._converter.to_xml(v)
+    except Exception:  # noqa: BLE001
+        return None
+    return None
+
+
+def xsd_compare(tab: Table, X):
+    """deviations of the Python declarations from the bundled schemas: [(class key, member xml name, code, detail)]"""
+    bind, direct = xsd_bind(tab, X)
+    dev = []
+    for ci, ce in enumerate(tab.entries):
+        if ci not in bind:
+            continue
+        key = ce['key']
+        elems, attrs, any_elem, any_attr = X.flatten(bind[ci])
+        epos = {}
+        for i, e in enumerate(elems):
+            epos.setdefault(e[0], i)
+        amap = {a[0]: a for a in attrs}
+        last = -1
+        seen_e, seen_a = set(), set()
+        for (name, p), e in zip(tab.props[ci], ce['props']):
+            kind, xml = e['kind'], e.get('xml')
+            if kind in ('attr', 'attrList'):
+                seen_a.add(xml)
+                a = amap.get(xml)
+                if a is None:
+                    if not any_attr:
+                        dev.append((key, xml, 'unknown-attr', f'{name}: the XSD type has no attribute {xml}'))
+                    continue
+                if a[2] and e['optional']:
+                    dev.append((key, xml, 'required-attr-optional', f'{name}: use="required" in the XSD, is_optional=True in the class'))
+                if not a[2] and not e['optional']:
+                    dev.append((key, xml, 'optional-attr-mandatory', f'{name}: optional in the XSD, is_optional=False in the class'))
+                if a[3] is not None and kind == 'attr':
+                    lx = lexical_of_default(p, e)
+                    if lx != a[3]:
+                        dev.append((key, xml, 'default', f'{name}: XSD default {a[3]!r}, implied / default value of the class {lx!r}'))
+                continue
+            if xml is None:
+                continue
+            seen_e.add(xml)
+            if xml not in epos:
+                if not any_elem:
+                    dev.append((key, xml, 'unknown-element', f'{name}: the XSD type {bind[ci]} has no child element {xml}'))
+                continue
+            i = epos[xml]
+            if i < last:
+                dev.append((key, xml, 'order', f'{name}: written after a member that follows it in the XSD sequence'))
+            last = max(last, i)
+            xe = elems[i]
+            is_list = kind in ('subList', 'subTextList') or (kind == 'raw' and e['style'] == 'anylist' and False)
+            if kind in ('sub', 'subList', 'subTextList', 'text', 'textList'):
+                if is_list and xe[3] == 1:
+                    dev.append((key, xml, 'listness', f'{name}: a list in the class, maxOccurs=1 in the XSD'))
+                if not is_list and kind in ('sub', 'text') and xe[3] != 1:
+                    dev.append((key, xml, 'listness', f'{name}: a single value in the class, maxOccurs={xe[3]} in the XSD'))
+            if kind in ('sub', 'subList') and e['cls'] >= 0:
+                want = X.resolve(xe[1])
+                have = bind.get(e['cls'])
+                if want in X.types and not X.types[want].simple and have != want:
+                    dev.append((key, xml, 'value-type', f'{name}: declared value class {tab.keys[e["cls"]]} stands for {have}, the XSD element '
+                                f'has type {want}'))
+            if kind in ('sub', 'text') and xe[2] >= 1 and e['optional']:
+                dev.append((key, xml, 'required-element-optional', f'{name}: minOccurs={xe[2]} in the XSD, is_optional=True in the class'))
+        for en in epos:
+            if en not in seen_e:
+                dev.append((key, en, 'missing-element', 'child element of the XSD type without member in the class'))
+        for an in amap:
+            if an not in seen_a:
+                dev.append((key, an, 'missing-attr', 'attribute of the XSD type without member in the class'))
+    return dev
+
+
 # ------------------------------------------------------------------------------------------------ translator
 def lstr(x) -> str:
     """Lean string literal"""
@@ -855,10 +1000,61 @@ def translate(ctx):
     out.append('def nameTable : List String := [\n  ' + ',\n  '.join(lstr(n) for n in table_names) + ']')
     out.append('end Sdc.Generated.Schema\n')
     core.write_if_changed(core.GENERATED + '/Schema.lean', '\n'.join(out))
+    translate_xsd(ctx, tab, enc)
     ctx.notes['schema'] = {'classes': len(tab.entries), 'members': sum(len(c['props']) for c in tab.entries), 'xsi_type_entries': len(tab.types),
                            'classes_that_cannot_be_constructed': tab.broken,
                            'kinds': {k: sum(1 for c in tab.entries for e in c['props'] if e['kind'] == k)
                                      for k in ('attr', 'attrList', 'text', 'textList', 'subTextList', 'sub', 'subList', 'raw')}}
+
+
+def translate_xsd(ctx, tab: Table, enc: Enc):
+    """Generated/XsdTable.lean: per class of the Python table the XSD type it stands for (flattened elements / attributes)"""
+    import xsdtable
+    X = xsdtable.XsdTable()
+    bind, direct = xsd_bind(tab, X)
+    type_ids, lex_ids = {}, {}
+
+    def tid(name):
+        name = X.resolve(name)
+        if name is None or name not in X.types or X.types[name].simple:
+            return 0
+        return type_ids.setdefault(name, len(type_ids) + 1)
+
+    def lid(lex):
+        return lex_ids.setdefault(lex, len(lex_ids))
+    out = ['import SdcModel.XmlBinding',
+           '/-! GENERATED by harness/props/c05.py from /repo/src/sdc11073/xsd/*.xsd (harness/xsdtable.py) and the class table; do not edit. -/',
+           'namespace Sdc.Generated.XsdTable', 'open Sdc.XmlBinding', '']
+    names = []
+    for ci, ce in enumerate(tab.entries):
+        if ci not in bind:
+            out.append(f'def l{ci} : XsdLink := ⟨0, [], [], false, false, []⟩  -- {ce["key"]}: no XSD type')
+            names.append(f'l{ci}')
+            continue
+        elems, attrs, any_e, any_a = X.flatten(bind[ci])
+        es = ', '.join(f'⟨{enc.nid(e[0])}, {tid(e[1])}, {e[2]}, {lbool(e[3] != 1)}⟩' for e in elems)
+        as_ = ', '.join(f'⟨{enc.nid(a[0])}, {lbool(a[2])}, {"none" if a[3] is None else f"(some {lid(a[3])})"}⟩' for a in attrs)
+        imp = []
+        for (name, p), e in zip(tab.props[ci], ce['props']):
+            if e['kind'] == 'attr':
+                lx = lexical_of_default(p, e)
+                if lx is not None:
+                    imp.append(f'({enc.nid(e["xml"])}, {lid(lx)})')
+        out.append(f'def l{ci} : XsdLink := ⟨{tid(bind[ci])}, [{es}], [{as_}], {lbool(any_e)}, {lbool(any_a)}, [{", ".join(imp)}]⟩'
+                   f'  -- {ce["key"]} = {bind[ci].split("}")[-1]}')
+        names.append(f'l{ci}')
+    out.append('')
+    out.append('def links : List XsdLink := [' + ', '.join(names) + ']')
+    table_names = sorted(enc.names, key=enc.names.get)
+    out.append('/-- local part of the element / attribute names (index = number) -/')
+    out.append('def localNames : List String := [' + ', '.join(lstr(n.split('}')[-1]) for n in table_names) + ']')
+    out.append('/-- XSD complex types behind the type numbers (index + 1 = number) -/')
+    out.append('def typeNames : List String := [\n  ' + ',\n  '.join(lstr(t) for t in sorted(type_ids, key=type_ids.get)) + ']')
+    out.append('end Sdc.Generated.XsdTable\n')
+    core.write_if_changed(core.GENERATED + '/XsdTable.lean', '\n'.join(out))
+    dev = xsd_compare(tab, X)
+    ctx.notes['xsd'] = {'classes_bound_to_an_xsd_type': len(bind), 'by_NODETYPE': len(direct),
+                        'deviations': {c: sum(1 for d in dev if d[2] == c) for c in sorted({d[2] for d in dev})}}
 
 
 # ------------------------------------------------------------------------------------------------ implementation side
@@ -974,7 +1170,7 @@ def oracle(ctx, tab: Table, obj, case):
     if node is None:
         ctx.count('oracle:class-without-xml-body')     # eventing Unsubscribe: the body is empty by design
         return True
-    validate_evidence(ctx, obj, node)
+    validate_oracle(ctx, obj, node, case)
     ok = True
     text = etree.tostring(node)
     for how, n in (('memory', node), ('reparsed', etree.fromstring(text))):
@@ -1023,8 +1219,15 @@ def validator():
     return _VALIDATOR
 
 
-def validate_evidence(ctx, obj, node):
-    """supporting evidence only: validate documents whose root is a global element of the bundled schemas"""
+_STRUCTURAL = (('This element is not expected', 'unexpected-element'), ('is not allowed', 'attribute-not-allowed'),
+               ('is required but missing', 'required-attribute-missing'), ('Missing child element', 'missing-child'))
+
+
+def validate_oracle(ctx, obj, node, case):
+    """documents whose root is a global element of the bundled schemas are validated. Structural errors (an element /
+    attribute the XSD does not expect at this place, a missing required attribute / child) are oracle failures: the
+    generator takes required attributes and minOccurs from the XSD, so the value lies in the schema value space.
+    Datatype / facet errors stay supporting evidence (the generator does not know the simple type facets)."""
     nt = getattr(type(obj), 'NODETYPE', None)
     if not isinstance(nt, etree.QName) or node.tag != nt.text or not type(obj).__module__.endswith(('msg_types', 'eventing_types', 'wsd_types')):
         return
@@ -1036,16 +1239,31 @@ def validate_evidence(ctx, obj, node):
     if ok:
         ctx.count('xsd:valid')
         return
-    err = validator().error_log.last_error
-    msg = err.message if err is not None else '?'
-    if 'No matching global declaration' in msg:
-        ctx.count('xsd:no-global-element')
-        return
-    ctx.count('xsd:invalid')
     import re
-    reason = re.sub(r"'[^']*'", "'…'", msg)[:110]
-    d = ctx.notes.setdefault('xsd_invalid_reasons', {})
-    d[reason] = d.get(reason, 0) + 1
+    for err in validator().error_log:
+        msg = err.message
+        if 'No matching global declaration' in msg:
+            ctx.count('xsd:no-global-element')
+            return
+        kind = next((k for pat, k in _STRUCTURAL if pat in msg), None)
+        m = re.search(r"Element '\{[^}]*\}(\w+)'(?:, attribute '(?:\{[^}]*\})?(\w+)')?", msg)
+        el, at = (m.group(1), m.group(2)) if m else ('?', None)
+        m2 = re.search(r"The attribute '(?:\{[^}]*\})?(\w+)' is required", msg)
+        if kind == 'required-attribute-missing' and m2:
+            at = m2.group(1)
+        if kind is None:
+            ctx.count('xsd:invalid-datatype (evidence only)')
+            d = ctx.notes.setdefault('xsd_datatype_errors', {})
+            reason = re.sub(r"'[^']*'", "'…'", msg)[:100]
+            d[reason] = d.get(reason, 0) + 1
+            continue
+        if 'urn:verif' in msg:
+            continue       # generated any-content / extension content, not described by the schemas
+        ctx.count('xsd:invalid-structure')
+        ctx.fail(f'xsd-invalid:{kind}:{el}' + (f'.{at}' if at else ''),
+                 f'{sh.class_key(type(obj))}: the document written for a value of the schema value space is not schema valid: {msg[:300]}',
+                 {**case, 'xml': etree.tostring(node).decode()[:3000]})
+        return
 
 
 def _exc_sig(ex):
@@ -1071,6 +1289,73 @@ def gen_cases(ctx, tab: Table):
                 continue
             ctx.count('gen:ok')
             yield ci, k, obj, g
+        if tab.keys[ci].startswith('msg_types.') and getattr(cls, 'NODETYPE', None) is not None:
+            for k in range(1000, 1000 + ctx.n(3, 12)):
+                g = Gen(tab, ctx.subrng('gen', ci, k), max_depth=3, full=True)
+                try:
+                    obj = g.instance(cls)
+                except GenError:
+                    continue
+                ctx.count('gen:full-presence')
+                yield ci, k, obj, g
+
+
+def typed_element_oracle(ctx, tab: Table, deviations=None):
+    """where the XSD declares an element with complex type T, a document whose element carries content of T *without*
+    xsi:type is schema valid and must be read completely: write an instance of the class that stands for T below the
+    member, drop the xsi:type the library adds when its declared value class differs, read, compare.
+    Runs for the members whose declared value class is not the class of T (`value-type` deviations)."""
+    import xsdtable
+    X = xsdtable.XsdTable()
+    bind, direct = xsd_bind(tab, X)
+    by_type = {}
+    for ci in direct:
+        by_type.setdefault(bind[ci], ci)
+    for key, xml, code, detail in (deviations if deviations is not None else xsd_compare(tab, X)):
+        if code != 'value-type':
+            continue
+        ci = tab.keys.index(key)
+        k, (name, p), e = next((k, np, e) for k, (np, e) in enumerate(zip(tab.props[ci], tab.entries[ci]['props'])) if e.get('xml') == xml)
+        elems = {el[0]: X.resolve(el[1]) for el in X.flatten(bind[ci])[0]}
+        wi = by_type.get(elems.get(xml))
+        if wi is None:
+            continue
+        for n in range(6):
+            rng = ctx.subrng('typed', key, xml, n)
+            try:
+                w = Gen(tab, rng, max_depth=2, full=True).instance(tab.clist[wi])
+                c = Gen(tab, rng, max_depth=1).instance(tab.clist[ci])
+                setattr(c, name, [w] if e['kind'] == 'subList' else w)
+                node = etree.fromstring(etree.tostring(serialize(c)))
+            except Exception:  # noqa: BLE001
+                ctx.count('typed-element:skipped')
+                continue
+            for ch in node.findall(xml):
+                if XSI_TYPE in ch.attrib:
+                    del ch.attrib[XSI_TYPE]       # the element's declared XSD type is already the type of the content
+            case = {'class': key, 'member': name, 'typed_element': tab.keys[wi], 'n': n, 'seed': ctx.seed, 'xml': etree.tostring(node).decode()[:3000]}
+            ctx.count('typed-element:checked')
+            try:
+                back = parse_node(tab.clist[ci], node)
+                again = serialize(back)
+            except Exception as ex:  # noqa: BLE001
+                ctx.fail(f'xsd-typed-element:{key}.{name}', f'{key}: a schema-valid {xml.split("}")[-1]} element (content of its declared XSD type '
+                         f'{elems[xml].split("}")[-1]}, no xsi:type) cannot be read / re-written: {type(ex).__name__}', case)
+                break
+            a, bb = xml_canon(node), xml_canon(again)
+            for t in (a, bb):
+                _strip_xsi(t)
+            if a != bb:
+                ctx.fail(f'xsd-typed-element:{key}.{name}', f'{key}.{name} is declared with value class {tab.keys[e["cls"]]}, the XSD element has type '
+                         f'{elems[xml].split("}")[-1]}: a schema-valid element without xsi:type loses content when it is read and written '
+                         f'again ({first_diff(a, bb)[0]})', case)
+                break
+
+
+def _strip_xsi(t):
+    t[1] = [a for a in t[1] if a[0] != XSI_TYPE]
+    for k in t[3]:
+        _strip_xsi(k)
 
 
 def run(ctx):
@@ -1119,6 +1404,8 @@ def run(ctx):
         ops.append((f'r {ci} ' + ' '.join(enc.xml(re_node)), expect, case))
     # ---- absent members that have a class-level default, and malformed lexical forms (read side)
     extra_cases(ctx, tab, enc, ops)
+    # ---- elements whose XSD type is more derived than the declared value class (no such member on a matching table)
+    typed_element_oracle(ctx, tab)
     lines += enc.codec_lines()
     n_pre = len(lines)
     lines += [o[0] for o in ops]
@@ -1237,8 +1524,30 @@ def _diff_tokens(a, b):
 
 
 def search(ctx):
-    """failing-input search: the round-trip oracle over many more generated instances of every class"""
+    """failing-input search: deviation-directed documents first (order / value-type deviations from the XSD), then the
+    round-trip oracle over many more generated instances of every class"""
     tab = table()
+    import xsdtable
+    dev = xsd_compare(tab, xsdtable.XsdTable())
+    typed_element_oracle(ctx, tab, dev)
+    targets = [tab.clist[tab.keys.index(d[0])] for d in dev if d[2] in ('order', 'unknown-element', 'unknown-attr')]
+    if targets:
+        # every concrete class that inherits the deviating declaration, inside every message that can carry it
+        concrete = [c for c in tab.clist if any(issubclass(c, t) for t in targets) and getattr(c, 'NODETYPE', None) is not None]
+        for ci, cls in enumerate(tab.clist):
+            if not (tab.keys[ci].startswith('msg_types.') and isinstance(getattr(cls, 'NODETYPE', None), etree.QName)):
+                continue
+            for k, pref in enumerate(concrete[:12]):
+                g = Gen(tab, ctx.subrng('directed', ci, k), max_depth=3, full=True, prefer=(pref,))
+                try:
+                    obj = g.instance(cls)
+                except GenError:
+                    continue
+                ctx.count('search:directed-document')
+                oracle(ctx, tab, obj, {'class': tab.keys[ci], 'directed': sh.class_key(pref), 'sub': [ci, k], 'seed': ctx.seed})
+    known = {k['signature'] for k in core.load_known() if k.get('property') == 'C05' and k.get('kind') == 'known'}
+    if any(f['signature'] not in known for f in ctx.failures):
+        return
     for ci, cls in enumerate(tab.clist):
         for k in range(200, 320):
             g = Gen(tab, ctx.subrng('gen', ci, k), max_depth=ctx.subrng('d', ci, k).choice([1, 2, 3]))
@@ -1258,6 +1567,13 @@ def replay(ctx, obj):
     if 'absent_member' in case or 'malformed' in case:
         ops = []
         extra_cases(ctx, tab, Enc(tab), ops)
+    elif 'typed_element' in case:
+        typed_element_oracle(ctx, tab)
+    elif 'directed' in case:
+        ci, k = case['sub']
+        pref = sh.all_classes()[case['directed']]
+        g = Gen(tab, ctx.subrng('directed', ci, k), max_depth=3, full=True, prefer=(pref,))
+        oracle(ctx, tab, g.instance(tab.clist[ci]), case)
     else:
         ci, k = case['sub']
         ci = tab.keys.index(case['class']) if case.get('class') in tab.keys else ci
